@@ -59,7 +59,7 @@ def driver_phase(chk, tier, table, vecs, rng, work):
     # ---- packages for the value round trip
     mod = DriverModule(work / "drvmod", drv)
     ctxs = sorted(table["contexts"])
-    nseeds = 2 if tier == "quick" else 24
+    nseeds = 2 if tier == "quick" else 12
     next_id = 0
     for k in range(nseeds):
         full = ["var_init"] + rng.sample([c for c in ctxs if c != "var_init"], 1 if tier == "quick" else 3)
@@ -190,7 +190,7 @@ def driver_phase(chk, tier, table, vecs, rng, work):
 
 def whole_tool_phase(chk, tier, table, rng, work, result):
     try:
-        nseeds = 2 if tier == "quick" else 12
+        nseeds = 2 if tier == "quick" else 6
         sb, runs = whole_tool(chk, tier, table, work / "wt", nseeds, rng)
         leads = lead_programs(chk, table, sb, work / "wt-leads", rng)
         result["runs"], result["leads"], result["sb"] = runs, leads, sb
@@ -254,7 +254,7 @@ def main(tier, seed):
     t = threading.Thread(target=whole_tool_phase, args=(chk, tier, table, rng_wt, work, wt), daemon=True)
     t.start()
 
-    vecs = replay_vectors(chk, 40 if tier == "quick" else 600, seed)
+    vecs = replay_vectors(chk, 40 if tier == "quick" else 300, seed)
     if tier != "quick":
         chk.extra["tlc_simulation_states"] = {
             "Literals-sim4.cfg": simulate_check(chk, "Literals-sim4.cfg", 6000, seed),
